@@ -32,6 +32,10 @@ def layer_b(chk, corpus):
         return []
     for k, v in st.items():
         chk.stats["layerB:" + k] = v
+    chk.rule += (" (c) layer B: the extracted Coq evaluator PyEval on the model's decompilation vs "
+                 "exec(ast.unparse(Pickled.load(data).ast)) under the same inert stand-ins, canonical value + "
+                 "event log compared literally on every corpus program the model accepts; data-only programs "
+                 "additionally re-observe C05_plain_data_eval (PyEval text == reference-VM model text)")
     chk.oblige(f"correspondence (layer B): model evaluator PyEval vs exec(ast.unparse(Pickled.load(data).ast)) "
                f"under inert stand-ins, value+events, {st['compared']} programs "
                f"({st['agree-OK-with-events']} with events; {st['data-only-theorem-instances']} data-only "
